@@ -152,7 +152,7 @@ theorem assetDecimals_native_ok {w : World} {d v : Nat} (h : assetDecimals w (.n
   | some k => rfl
 
 theorem facCreatePair_inv {w w' : World} {s : Nat} {a0 a1 : Asset} {req : Requirements} {comm : Option Nat}
-    {np nl : Nat} (h : facCreatePair w s a0 a1 req comm np nl = .ok w') :
+    {lpDec : Option Nat} {np nl : Nat} (h : facCreatePair w s a0 a1 req comm lpDec np nl = .ok w') :
     s = w.owner ∧ a0 ≠ a1 ∧ (match comm with | some c => c ≤ E | none => True) ∧
     ∃ d0 d1, assetDecimals w a0 = .ok d0 ∧ assetDecimals w a1 = .ok d1 ∧
       regLookup (pairKey (w.rawId a0) (w.rawId a1)) w.registry = none ∧
@@ -161,7 +161,7 @@ theorem facCreatePair_inv {w w' : World} {s : Nat} {a0 a1 : Asset} {req : Requir
           { a0 := a0, a1 := a1, d0 := d0, d1 := d1, lp := nl, comm := comm.getD defaultCommission, req := req,
             factory := w.facAddr } else w.pair a
         tok := fun a => if a = nl then some
-          { bal := fun _ => 0, allow := fun _ _ => none, supply := 0, minter := some np, decimals := 6 } else w.tok a
+          { bal := fun _ => 0, allow := fun _ _ => none, supply := 0, minter := some np, decimals := lpDec.getD 6 } else w.tok a
         registry := regInsert (pairKey (w.rawId a0) (w.rawId a1))
           { a0 := a0, a1 := a1, pair := np, lp := nl, d0 := d0, d1 := d1, req := req,
             comm := comm.getD defaultCommission } w.registry } := by
@@ -195,12 +195,17 @@ theorem facCreatePair_inv {w w' : World} {s : Nat} {a0 a1 : Asset} {req : Requir
   rename_i hl
   split at h
   · cases h
+  have h' : ∃ cb : Bool, (if cb = true then (.error .err : M World) else _) = .ok w' := ⟨_, h⟩
+  clear h
+  obtain ⟨cb, h⟩ := h'
+  split at h
+  · cases h
   injection h with h
   refine ⟨d0, d1, hd0, hd1, ?_, h.symm⟩
   simpa using hl
 
-theorem create_dup_fails {w w' : World} {s : Nat} {a0 a1 : Asset} {req : Requirements} {comm : Option Nat} {np nl : Nat}
-    (h : facCreatePair w s a0 a1 req comm np nl = .ok w') :
+theorem create_dup_fails {w w' : World} {s : Nat} {a0 a1 : Asset} {req : Requirements} {comm lpDec : Option Nat} {np nl : Nat}
+    (h : facCreatePair w s a0 a1 req comm lpDec np nl = .ok w') :
     a0 ≠ a1 ∧ facLookup w a0 a1 = none ∧ facLookup w a1 a0 = none ∧
     assetDecimals w a0 = .ok ((w'.pair np).map (·.d0) |>.getD 0) ∧
     assetDecimals w a1 = .ok ((w'.pair np).map (·.d1) |>.getD 0) ∧
@@ -211,9 +216,9 @@ theorem create_dup_fails {w w' : World} {s : Nat} {a0 a1 : Asset} {req : Require
   · simpa using hd0
   · simpa using hd1
 
-theorem regOK_createPair {w w' : World} {s : Nat} {a0 a1 : Asset} {req : Requirements} {comm : Option Nat} {np nl : Nat}
+theorem regOK_createPair {w w' : World} {s : Nat} {a0 a1 : Asset} {req : Requirements} {comm lpDec : Option Nat} {np nl : Nat}
     (hr : RegOK w) (_hraw : RawOK w) (hfresh : w.pair np = none)
-    (h : facCreatePair w s a0 a1 req comm np nl = .ok w') : RegOK w' := by
+    (h : facCreatePair w s a0 a1 req comm lpDec np nl = .ok w') : RegOK w' := by
   obtain ⟨_, hne, _, d0, d1, hd0, hd1, _, rfl⟩ := facCreatePair_inv h
   have hold : ∀ e ∈ w.registry, e.2.pair ≠ np := by
     intro e he hp
@@ -784,7 +789,7 @@ theorem tokSend_same {name : Asset → String} {w w' : World} {t sender dst amt 
 theorem regOK_step {name : Asset → String} {w w' : World} {op : Op} {out : Out}
     (hr : RegOK w) (hraw : RawOK w)
     (hactor : ∀ s p f m, op = .pair s p f m → s ≠ w.facAddr)
-    (hfresh : ∀ s f a0 a1 req c np nl, op = .factory s f (.createPair a0 a1 req c np nl) → w.pair np = none)
+    (hfresh : ∀ s f a0 a1 req c ld np nl, op = .factory s f (.createPair a0 a1 req c ld np nl) → w.pair np = none)
     (h : exec name w op = .ok (w', out)) : RegOK w' := by
   cases op with
   | bankSend s d cs =>
@@ -840,8 +845,8 @@ theorem regOK_step {name : Asset → String} {w w' : World} {op : Op} {out : Out
       injection h2 with h2
       subst h2
       exact regOK_transfer (w := w0) rfl rfl rfl rfl (fun _ _ => rfl) hr0
-    | createPair a0 a1 req comm np nl =>
-      exact regOK_createPair hr0 hraw0 (by rw [hs0.pair]; exact hfresh _ _ _ _ _ _ _ _ rfl) h1
+    | createPair a0 a1 req comm lpDec np nl =>
+      exact regOK_createPair hr0 hraw0 (by rw [hs0.pair]; exact hfresh _ _ _ _ _ _ _ _ _ rfl) h1
     | addDecimals d k => exact regOK_addDecimals hr0 hraw0 h1
     | migratePair p c =>
       have h2 : facMigratePair w0 s p c = .ok w1 := h1
